@@ -3,7 +3,7 @@ from rtmon import shape
 
 LEVEL = 'exploration'
 EXHAUSTIVE = False
-JOB_TIMEOUT = 2400
+JOB_TIMEOUT = 5400
 PID = 'C12'
 RULE = ('every Model.parse return event of W-corpus, W-noise, W-gen and W-multi (2-4 generated entity expressions per sentence separated by filler words) x all registered (model, culture) pairs, default options. Oracle: spans of one return sorted by start; next.start <= prev.end is a violation (witness = the two entities). non-trivial = the call returned at least two entities; distinct = distinct (culture, model, query, reference).')
 
